@@ -42,7 +42,7 @@ def main():
                     rc, out = sh("patch -p1 --fuzz=3 --no-backup-if-mismatch -i %s" % patch, WT)
                 if rc != 0:
                     print(name, "PATCH DOES NOT APPLY:", out[:300]); continue
-                race = "-race " if pid == "C18" or "race" in open(os.path.join(md, "notes.md")).read().lower()[:4000] and pid == "C18" else ""
+                race = "-race " if pid == "C18" else ""
                 rc, out = sh("go build ./... && go test -vet=off -count=1 ./...", WT)
                 suite_ok = rc == 0
                 shutil.copy(demo, os.path.join(WT, "zz_seeded_demo_test.go"))
